@@ -262,6 +262,15 @@ func MirrorDial(ctx context.Context, e *Env, a *Attempt) (transport.CapableConn,
 	return c, "", nil
 }
 
+// Yield lets a goroutine that was just started (an asynchronous Close) run as far as it can before the
+// caller carries on: the workers run with GOMAXPROCS=1, so every Gosched hands the processor to the other
+// runnable goroutines. It never blocks, so it is safe while the caller holds locks of the code under test.
+func Yield() {
+	for i := 0; i < 200; i++ {
+		runtime.Gosched()
+	}
+}
+
 // H collects the trace and the violations of one run and runs harness steps under a (virtual) timeout.
 type H struct {
 	mu       sync.Mutex
@@ -572,6 +581,7 @@ func runInBubble(cs Case, res *Result, dial DialFunc) {
 				err := ln.Close()
 				h.Trace("listener.Close() returned: %v", err)
 			}()
+			Yield()
 		})
 	}
 	for i := range atts {
@@ -623,6 +633,7 @@ func runInBubble(cs Case, res *Result, dial DialFunc) {
 			h.MarkFired()
 			h.Trace("fault: %s connection Close() at its op %d", f.Side, f.K)
 			go func() { h.Trace("fault: Close returned %v", c.Close()) }()
+			Yield()
 		})
 	case "lnclose":
 		ends[sideOf(f.Side)].SetOnOp(func(op memnet.Op) {
